@@ -50,6 +50,7 @@ type c20Case struct {
 	Normalize     bool      `json:"normalize,omitempty"`    // --normalize-line-endings on every command; the final product has other line endings than the recorded file
 	FollowDirs    bool      `json:"follow_dirs,omitempty"`  // --follow-symlink-dirs with a linked directory in the project
 	RunDir        bool      `json:"run_dir,omitempty"`      // commands run in a sub-directory (run --run-dir)
+	OddNames      bool      `json:"odd_names,omitempty"`    // step names with characters that mean something to file-name patterns and shells
 }
 
 func c20Gen(t *rapid.T) c20Case {
@@ -85,11 +86,15 @@ func c20Gen(t *rapid.T) c20Case {
 	if c.Normalize && rapid.IntRange(0, 3).Draw(t, "dropnorm") == 0 {
 		c.Tamper = "no-normalize"
 	}
+	c.OddNames = rapid.IntRange(0, 3).Draw(t, "oddnames") == 0
 	return c
 }
 
 // c20StepName: names a project would use (dots, dashes, capitals), not in alphabetical order.
 func c20StepName(c c20Case, i int) string {
+	if c.OddNames {
+		return []string{"pack[x86]", "sign off", "a\\b", "what?"}[(i+c.Arg)%4]
+	}
 	return []string{"step0", "build.v2", "Release-1.0.x"}[(i+c.Arg)%3]
 }
 
@@ -509,7 +514,9 @@ func c20Run(c c20Case, r *hx.Rec) error {
 		_ = os.WriteFile(filepath.Join(e.final, "intruder.bin"), []byte("x"), 0o644)
 	case "link-field":
 		raw, _ := os.ReadFile(victimFile)
-		edited := bytes.Replace(raw, []byte(`"name": "`+victim+`"`), []byte(`"name": "`+victim+`x"`), 1)
+		was, _ := json.Marshal(victim) // (as the name is spelled in the file: a backslash is escaped there)
+		becomes, _ := json.Marshal(victim + "x")
+		edited := bytes.Replace(raw, append([]byte(`"name": `), was...), append([]byte(`"name": `), becomes...), 1)
 		if bytes.Equal(raw, edited) {
 			// DSSE: flip one symbol of the payload
 			var top map[string]any
